@@ -357,8 +357,67 @@ def canon(samples, state):
             "leaf_types": desc[:12]}
 
 
+LOGS = ("minisanity.txt",)
+
+
+def point_variants(kind, name, open_names, level):
+    """Crash-point variants at one traced operation: [(mode, frac)] (kill: plain kill before the
+    operation; light: + one torn variant of every state-file write; medium: + buffers flushed
+    wherever a state file is open; full: flush wherever any file is open, three torn fractions for
+    state-file writes, one for log writes)."""
+    out = [("kill", 0.0)]
+    if level == "kill":
+        return out
+    state = any(f not in LOGS for f in open_names)
+    if open_names and ((level == "medium" and state) or level == "full"):
+        out.append(("flush", 0.0))
+    if kind == "write":
+        if name not in LOGS:
+            out += [("torn", fr) for fr in ([0.03, 0.5, 0.97] if level == "full" else [0.5])]
+        elif level == "full":
+            out.append(("torn", 0.5))
+    return out
+
+
+def snap_name(k, mode, frac):
+    return "k%d_%s_%d" % (k, mode, int(round(frac * 100)))
+
+
+def dir_sha(odir):
+    """Content hash of the directory a restart finds (every file byte for byte)."""
+    if not os.path.isdir(odir):
+        return "no-directory"
+    h = hashlib.sha256()
+    for d, ds, fs in sorted(os.walk(odir)):
+        for f in sorted(fs):
+            p = os.path.join(d, f)
+            h.update(os.path.relpath(p, odir).encode() + b"\0")
+            with open(p, "rb") as fh:
+                h.update(fh.read())
+            h.update(b"\0")
+    return h.hexdigest()
+
+
 def main():
-    spec = json.load(open(sys.argv[1]))
+    if sys.argv[1] == "--batch":
+        # several complete (never killed) runs one after the other in this process
+        specs = json.load(open(sys.argv[2]))
+        rcs = []
+        for spec in specs:
+            try:
+                run_one(spec, in_process=True)
+                rcs.append(0)
+            except BaseException as e:              # noqa
+                print("in-process run failed: %r" % (e,), flush=True)
+                rcs.append(1)
+        with open(sys.argv[2] + ".rcs", "w") as f:
+            json.dump(rcs, f)
+        sys.stdout.flush()
+        os._exit(0)
+    run_one(json.load(open(sys.argv[1])))
+
+
+def run_one(spec, in_process=False):
     import logging
     logging.disable(logging.CRITICAL)
     import pickle
@@ -370,7 +429,7 @@ def main():
     import nifty
     header = {"resume": spec["resume"], "crash_at": spec["crash_at"], "nifty_file": nifty.__file__}
     # what is on disk before this run starts (only interesting for resumed runs)
-    pre = {"files": [], "last": "absent"}
+    pre = {"files": [], "last": "absent", "dir_sha": dir_sha(odir)}
     if os.path.isdir(odir):
         pre["files"] = sorted(os.path.relpath(os.path.join(d, f), odir) for d, _, fs in os.walk(odir) for f in fs)
     lf = os.path.join(odir, "last.pkl")
@@ -386,6 +445,12 @@ def main():
     header["pre"] = pre
     tr = Tracer(odir, int(spec["crash_at"]), spec.get("mode", "kill"), float(spec.get("frac", 0.5)), spec["out"])
     tr.header = header
+    rule = spec.get("snap_rule")
+    if rule:
+        def snap_cb(k, kind, name, open_names):
+            return [{"mode": m, "frac": fr, "dest": os.path.join(rule["dir"], snap_name(k, m, fr), "odir")}
+                    for m, fr in point_variants(kind, name, open_names, rule["level"])]
+        tr.snap_cb = snap_cb
     iters = {}
     tr.header["iters"] = iters
 
@@ -400,11 +465,22 @@ def main():
         out = {"outcome": "ok", "final": canon(samples, state)}
     except BaseException as e:                                    # noqa: resume impossible etc.
         out = {"outcome": "raised", "error": type(e).__name__, "detail": str(e).replace(os.path.realpath(odir), "<odir>").replace(odir, "<odir>")[:200]}
+    for t in list(tr.open_files):                                 # files left open by an exception
+        try:
+            t.f.close()
+        except Exception:
+            pass
+    if out["outcome"] == "ok" and rule:                           # "killed after the last operation"
+        tr.snapshot({"mode": "kill", "frac": 0.0,
+                     "dest": os.path.join(rule["dir"], snap_name(len(tr.ops), "kill", 0.0), "odir")}, None, None, None)
+    out["snaps_taken"] = tr.snaps_taken
     out["shadow_mismatch"] = tr.shadow_mismatch() if out["outcome"] == "ok" else []
     out["last_sha"] = hashlib.sha256(tr.read_real("last.pkl")).hexdigest() if os.path.isfile(lf) else None
+    tr.uninstall()
     tr.dump(out)
     sys.stdout.flush()
-    os._exit(0)
+    if not in_process:
+        os._exit(0)
 
 
 if __name__ == "__main__":
